@@ -90,6 +90,8 @@ def run_property(mod, pid, tier, seed, only=None, jobs=0, keep=False, write_evid
                 def progress(r):
                     log("  %-52s %-12s %6.0fs %6d MB %s" % (r.inst.name, r.verdict, r.wall_s, r.max_rss_mb,
                                                           (r.reason or "")[:140]))
+                # longest-first (declared memory cap as the cost proxy), vacuity twins first of all: shortens the makespan, and a budget cut hits the cheap tail
+                instances = sorted(instances, key=lambda i: (0 if i.expect_fail else 1, -i.mem_gb))
                 if tier == "quick":
                     # the quick command is meant for every change: stay inside ~13 minutes whatever the machine is doing
                     budget = float(os.environ.get("VERIF_QUICK_BUDGET_S", "780"))
